@@ -100,7 +100,10 @@ def run_case(ctx, cost, labels, blank, tag):
         opt = INF
         n_align = 0
     try:
-        res = FA.force_align(cost.copy(), list(labels), blank)
+        c_in = cost.copy()
+        l_in = list(labels)
+        res = FA.force_align(c_in, l_in, blank)
+        ctx.check(np.array_equal(c_in, cost) and l_in == list(labels), "force_align_modifies_its_input", desc)
         err = None
     except ValueError as e:
         res, err = None, e
